@@ -623,6 +623,26 @@ theorem capi_session_faithful {V : Type} {g0 : Nat → V} (items : List Item) (p
     · simp only [exec, call, disturb, hi, hl, hrec]
       exact congrArg (fun r => record e0.lastErr tid r.2.2) hstep
 
+omit L t in
+/-- C API, any number of sessions on any number of threads, any interleaving, sessions handed from thread to
+    thread: what the client observes of session `i` (results of every call, sink output, drop call-backs) and the
+    session's state are those of running session `i`'s calls alone, sequentially. -/
+theorem C18_capi_sessions {V : Type} {g0 : Nat → V} (pol : Policy) (prog : Prog)
+    (σ : List (Event (capiSys R pol prog V g0))) (i : Nat) :
+    ((Model.Threads.run sourceItems (World.fresh _) σ).inst i, (Model.Threads.run sourceItems (World.fresh _) σ).obs i)
+      = seqRun (capiSys R pol prog V g0) (instOps i σ) :=
+  C18_sequential_prediction C18_threads_side_condition σ i
+
+omit L t in
+/-- C API: if no other thread touches the sessions thread `t` works on, then `t`'s `LAST_ERROR` and everything its
+    `take_last_error` calls return are what they would be if no other thread existed. -/
+theorem C18_capi_last_error {V : Type} {g0 : Nat → V} (pol : Policy) (prog : Prog)
+    (σ : List (Event (capiSys R pol prog V g0))) (t : Tid)
+    (hpriv : ∀ e ∈ σ, ∀ i, e.instOf = some i → usedBy t σ i = true → e.tid = t) :
+    threadView (Model.Threads.run sourceItems (World.fresh _) σ) t
+      = threadView (Model.Threads.run sourceItems (World.fresh _) (σ.filter fun e => e.tid == t)) t :=
+  C18_last_error_own_calls C18_threads_side_condition σ t hpriv
+
 /-! ## Non-vacuity on the replay machine `MiniR` -/
 
 namespace CApiDemo
